@@ -47,7 +47,7 @@ class P(vlib.Prop):
         "gzip and sha256 are oracles in c06_digest; pgzip and sha256 are exercised by the harness's independent reader, not proved",
         "archive/tar is the one of the Go toolchain the harness is built with (1.23); Model/TarBytes.v is a hand transcription of its Writer and Reader, compared byte for byte with them on every run",
     )
-    level_text = ("c06_layer_bytes_faithful: for every tree in the envelope of c06_extract_walk_links with whole-second times whose walk lies in the byte envelope, the model's tar stream of the layer "
+    level_text = ("c06_layer_bytes_faithful_tree / c06_layer_bytes_faithful: for every tree in the envelope of c06_extract_walk_links with whole-second times that lies in the byte envelope (forest_bytes_okb, a decidable predicate on the tree; c06_tree_envelope_walk carries it to the walk), the model's tar stream of the layer "
                   "(walk, header synthesis with the PAX prefix read from tarball.go, archive/tar's Writer with header.Format as walkFS leaves it, the final Close) is read back by the model of "
                   "archive/tar's Reader as members standing for entries that extract to exactly the tree (paths strictly increasing, names from passwd/group). Its parts: c06_bytes_roundtrip "
                   "(read_archive (write_archive ms) = the members, for all members in the stated envelope: names of any length and bytes, ids beyond 2^21, sizes beyond 8 GiB, negative and large "
